@@ -13,7 +13,7 @@ def pool_ops():
     reserve = st.tuples(st.just('reserve'), request_any).map(list)
     release = st.tuples(st.just('release'), st.integers(0, 5),
                         st.one_of(st.none(), st.none(), st.dictionaries(name_any, st.sampled_from([-1, 0, 1, 1, 2, 5]),
-                                                                         min_size=1, max_size=3))).map(list)
+                                                                         min_size=0, max_size=3))).map(list)
     merge = st.tuples(st.just('merge'), st.integers(0, 5), st.integers(0, 5)).map(list)
     return st.one_of(add, add, reserve, reserve, reserve, release, release, merge)
 
@@ -51,7 +51,8 @@ def waiter_ops(beh):
     add = st.tuples(st.just('add'), wname, st.sampled_from([-2, -1, 1, 1, 2, 2, 3])).map(list)
     reserve = st.tuples(st.just('reserve'), wreq).map(list)
     release = st.tuples(st.just('release'), st.integers(0, 4)).map(list)
-    register = st.tuples(st.just('register'), wreq, beh).map(list)
+    # the 4th element: the caller changes its own dictionary right after registering (the manager must keep a copy)
+    register = st.tuples(st.just('register'), wreq, beh, st.sampled_from([False, False, True])).map(list)
     advance = st.tuples(st.just('advance'), st.sampled_from([0, 0, 1, 2.5])).map(list)
     return st.one_of(add, add, add, reserve, reserve, release, release, release, register, register, register,
                      register, advance, advance)
@@ -73,7 +74,7 @@ def overcommit_cases():
     reduce_ = st.tuples(st.just('add'), st.sampled_from(['a', 'a', 'b']), st.sampled_from([-1, -1, -2, -3])).map(list)
     grow = st.tuples(st.just('add'), st.sampled_from(['a', 'b']), st.sampled_from([1, 2])).map(list)
     release = st.tuples(st.just('release'), st.integers(0, 5),
-                        st.sampled_from([None, {'a': 1}, {'a': 1}, {'b': 1}, {'a': 2}, {'a': 1, 'b': 1}])).map(list)
+                        st.sampled_from([None, {'a': 1}, {'a': 1}, {'b': 1}, {'a': 2}, {'a': 1, 'b': 1}, {}])).map(list)
     merge = st.tuples(st.just('merge'), st.integers(0, 5), st.integers(0, 5)).map(list)
     tail = st.lists(st.one_of(reduce_, reduce_, release, release, release, merge, reserve, grow), min_size=3, max_size=14)
     return st.builds(lambda ca, cb, rs, t: {'ops': [['add', 'a', ca], ['add', 'b', cb]] + rs + t},
